@@ -59,7 +59,12 @@ def explore(B, spec, assume, profile):
                 gg = b_and(g, g1)
                 if not r.I.feasible((), b_and(gg, *r.assume)):
                     continue
-                cr = compile_tree(B, t1, opts if not isinstance(opts, Union) else None, profile)
+                try:
+                    cr = compile_tree(B, t1, opts if not isinstance(opts, Union) else None, profile)
+                except Inconclusive as e:
+                    if getattr(e, "budget_pc", None) is not None:
+                        e.budget_pc = list(e.budget_pc) + [gg] + list(r.assume)      # the parse path that produced this tree
+                    raise
                 for g2, cv in cr.alts:
                     if isinstance(cv, Panic):
                         panics.append((b_and(gg, g2), "compile", cv))
@@ -129,6 +134,25 @@ def nesting_work(B, rep, tier, samples):
     samples.append(dict(family="nesting", worst_work=worst[0], worst_case=worst[1], limit=WORK_LIMIT))
 
 
+def nonterminating(B, rep, name, spec, assume, e):
+    """a loop of the crate ran past the engine's budget on some path of this family: the solver gives an input on that path,
+    and the native build is given 20 s for it; no answer = non-termination (reported), an answer = the budget was too small
+    (the run stays inconclusive)"""
+    import subprocess
+    chars = [x for x in spec if not isinstance(x, str)]
+    res, m = B.solve("%s:budget-path" % name, [char_valid(c) for c in chars] + list(assume) + list(e.budget_pc), True)
+    if res != z3.sat:
+        return False
+    text = model_string(m, spec)
+    try:
+        B.ctx.run_native([text], "debug", timeout=20)
+        return False
+    except subprocess.TimeoutExpired:
+        rep.violation("non-termination:loop", "%r: %s; the native debug build gives no answer within 20 s" % (text, str(e).splitlines()[0][-160:]),
+                      dict(input=text, timeout_s=20))
+        return True
+
+
 def run(ctx, rep, tier):
     B = Bench(ctx, rep)
     known = {k["class"] for k in vlib.known_for(PID)}
@@ -162,6 +186,8 @@ def run(ctx, rep, tier):
             try:
                 r, panics, n_ok, n_err = explore(B, spec, assume, profile)
             except (Inconclusive, ValueError) as e:
+                if getattr(e, "budget_pc", None) is not None and nonterminating(B, rep, name, spec, assume, e):
+                    continue
                 # a family of the thorough tier only that exceeds the engine's capacity (path explosion) is not decided: it is listed,
                 # not claimed; families of the quick tier and unmodelled constructs stay inconclusive
                 if name not in quick_names and any(k in str(e) for k in ("too many", "step budget exceeded")):
